@@ -382,6 +382,108 @@ func runIsolatedCases(c *vm.Ctx) {
 	})
 }
 
+// bigElements: arrays and lists with more elements than the first step of the decoder's growing buffers (4096
+// elements, 64 KiB), whole and cut off inside the payload, into every receiver kind a tag can be decoded into - the
+// loops that copy elements are written once per element kind. Totality only: a value or an error.
+func bigElements(c *vm.Ctx, r *vm.Rand) {
+	recv := map[string][]reflect.Type{
+		"b": {reflect.TypeOf([]byte(nil)), reflect.TypeOf([]int8(nil)), reflect.TypeOf([]uint8(nil)), reflect.TypeOf([]bool(nil)), reflect.TypeOf([9000]byte{}), reflect.TypeOf([]int(nil)), reflect.TypeOf((*any)(nil)).Elem(), reflect.TypeOf(nbt.RawMessage{}), reflect.TypeOf(dynbt.Value{})},
+		"i": {reflect.TypeOf([]int32(nil)), reflect.TypeOf([]uint32(nil)), reflect.TypeOf([]int(nil)), reflect.TypeOf([]uint(nil)), reflect.TypeOf([]int64(nil)), reflect.TypeOf([9000]int32{}), reflect.TypeOf((*any)(nil)).Elem(), reflect.TypeOf(nbt.RawMessage{}), reflect.TypeOf(dynbt.Value{})},
+		"l": {reflect.TypeOf([]int64(nil)), reflect.TypeOf([]uint64(nil)), reflect.TypeOf([]int(nil)), reflect.TypeOf([]uint(nil)), reflect.TypeOf([9000]int64{}), reflect.TypeOf([9000]uint64{}), reflect.TypeOf((*any)(nil)).Elem(), reflect.TypeOf(nbt.RawMessage{}), reflect.TypeOf(dynbt.Value{})},
+		"s": {reflect.TypeOf([]int16(nil)), reflect.TypeOf([]uint16(nil)), reflect.TypeOf([]int(nil)), reflect.TypeOf([]any(nil)), reflect.TypeOf([9000]int16{}), reflect.TypeOf((*any)(nil)).Elem(), reflect.TypeOf(nbt.RawMessage{}), reflect.TypeOf(dynbt.Value{}), reflect.TypeOf([]dynbt.Value(nil))},
+		"t": {reflect.TypeOf([]string(nil)), reflect.TypeOf([]any(nil)), reflect.TypeOf((*any)(nil)).Elem(), reflect.TypeOf([]nbt.RawMessage(nil)), reflect.TypeOf(nbt.RawMessage{}), reflect.TypeOf(dynbt.Value{})},
+	}
+	keys := []string{"b", "i", "l", "s", "t"}
+	for _, n := range []int{4097, 5000, 8193, 20000} {
+		mk := func(key string) *refnbt.Value {
+			switch key {
+			case "b":
+				return &refnbt.Value{Tag: refnbt.ByteArray, Bytes: r.Bytes(n)}
+			case "i":
+				v := &refnbt.Value{Tag: refnbt.IntArray, Ints: make([]int32, n)}
+				for k := range v.Ints {
+					v.Ints[k] = int32(r.Uint64())
+				}
+				return v
+			case "l":
+				v := &refnbt.Value{Tag: refnbt.LongArray, Longs: make([]int64, n)}
+				for k := range v.Longs {
+					v.Longs[k] = int64(r.Uint64())
+				}
+				return v
+			case "s":
+				v := &refnbt.Value{Tag: refnbt.List, Elem: refnbt.Short}
+				for k := 0; k < n; k++ {
+					v.List = append(v.List, refnbt.Sh(int16(k)))
+				}
+				return v
+			}
+			v := &refnbt.Value{Tag: refnbt.List, Elem: refnbt.String}
+			for k := 0; k < n; k++ {
+				v.List = append(v.List, refnbt.St("e"))
+			}
+			return v
+		}
+		for _, key := range keys {
+			tree := &refnbt.Value{Tag: refnbt.Compound, Comp: []refnbt.Entry{{Name: "a", V: refnbt.In(1)}, {Name: key, V: mk(key)}, {Name: "z", V: refnbt.St("after")}}}
+			network := r.Bool()
+			doc := refnbt.Encode(tree, "", network)
+			// whole, and cut at a few places inside the big payload (past the first 4096 elements, one byte short)
+			cuts := []int{len(doc), len(doc) - 12, len(doc) / 2, len(doc) - len(doc)/8, 4096*refElemSize(key) + 40}
+			for _, rt := range recv[key] {
+				st := reflect.StructOf([]reflect.StructField{
+					{Name: "A", Type: reflect.TypeOf(int32(0)), Tag: `nbt:"a"`},
+					{Name: "V", Type: rt, Tag: reflect.StructTag(`nbt:"` + key + `"`)},
+					{Name: "Z", Type: reflect.TypeOf(""), Tag: `nbt:"z"`},
+				})
+				for _, cut := range cuts {
+					if cut <= 8 || cut > len(doc) {
+						continue
+					}
+					in := &input{b: doc[:cut], network: network, origin: fmt.Sprintf("big-elements n=%d key=%s cut=%d/%d", n, key, cut, len(doc))}
+					name := fmt.Sprintf("big/%s/%s", key, rt.String())
+					wit := func() any {
+						return map[string]any{"elements": n, "member": key, "receiver": rt.String(), "document_bytes": len(doc), "cut_at": cut, "network": network}
+					}
+					c.Inflight(in.origin + " into " + rt.String())
+					var err error
+					if c.Guard(name, wit, func() {
+						p := reflect.New(st)
+						d := nbt.NewDecoder(bytes.NewReader(in.b))
+						d.NetworkFormat(network)
+						_, err = d.Decode(p.Interface())
+					}) {
+						continue
+					}
+					c.Eval(vm.HashStr("big", key, rt.String(), fmt.Sprint(n, cut, network)), true)
+					switch {
+					case err == nil && cut < len(doc):
+						c.Violation("big/success-on-truncated/"+key+"/"+rt.String(), fmt.Sprintf("a document cut %d bytes short inside a %d-element %s member decoded without error into %s", len(doc)-cut, n, key, rt), wit())
+					case err == nil:
+						c.Cover("big.success." + key)
+					default:
+						c.Cover("big.error")
+					}
+				}
+			}
+		}
+	}
+}
+
+func refElemSize(key string) int {
+	switch key {
+	case "b":
+		return 1
+	case "i":
+		return 4
+	case "l":
+		return 8
+	case "s":
+		return 2
+	}
+	return 3
+}
+
 func run(c *vm.Ctx) {
 	if c.Mode == "capped" {
 		runIsolatedCases(c)
@@ -495,6 +597,9 @@ func run(c *vm.Ctx) {
 				}
 			}
 		}
+	}
+	if c.Shard == 1%c.NShards {
+		bigElements(c, c.Rand("big"))
 	}
 	// random byte strings; all strings of length <= 2 (shard 0)
 	if c.Shard == 0 {
